@@ -61,11 +61,19 @@ def _flex(anchor):
 
 
 class SourceFile:
-    def __init__(self, repo, rel):
+    def __init__(self, repo, rel, doc=False):
         self.rel = rel
         self.path = os.path.join(repo, rel)
         with open(self.path, encoding='utf-8') as f:
             self.raw = f.read()
+        if doc:
+            # "doc view": the code inside `///` doc comments (documented recipes), everything
+            # else blanked; line numbers are preserved
+            lines = []
+            for l in self.raw.split('\n'):
+                m = re.match(r'^\s*///\s?(.*)$', l)
+                lines.append(m.group(1) if m else '')
+            self.raw = '\n'.join(lines)
         self.text, self.dropped_comment_lines = rustlex.strip_comments(self.raw)
         self.mask = rustlex.code_mask(self.text)
 
@@ -193,13 +201,14 @@ def expand_template(tpl_text, repo, tpl_name='unit', canary=False):
     lines = tpl_text.split('\n')
     i = 0
 
-    def src(rel):
-        if rel not in files:
+    def src(rel, doc=False):
+        key = (rel, doc)
+        if key not in files:
             p = os.path.join(repo, rel)
             if not os.path.exists(p):
                 raise LostAnchor('source file %s is missing' % rel)
-            files[rel] = SourceFile(repo, rel)
-        return files[rel]
+            files[key] = SourceFile(repo, rel, doc)
+        return files[key]
 
     while i < len(lines):
         line = lines[i]
@@ -245,7 +254,7 @@ def expand_template(tpl_text, repo, tpl_name='unit', canary=False):
             elif l2.strip():
                 raise ValueError('%s: text outside a directive in block for %s' % (tpl_name, anchor))
             i += 1
-        sf = src(rel)
+        sf = src(rel, bool(opts.get('doc')))
         start, bopen, end = sf.locate(anchor, opts.get('within'),
                                       int(opts['nth']) if 'nth' in opts else None)
         what = '%s:%s' % (rel, anchor)
